@@ -6,6 +6,7 @@ from checks import ddcommon
 from checks import alloccommon
 from checks import arcslabcommon
 from checks import termcommon
+from checks import gcthreadcommon
 
 META = {
     "title": "exact reference counts and garbage collection",
@@ -30,6 +31,10 @@ META["level_note"] += " Package STOREREF: proof-only (not extracted); its alloca
 META["technique"] += "; trace replay for the dynamic terminal manager (package C07t): the cfg(oxidd_verif) hooks inside terminal_manager/dynamic.rs log every get_edge (found / new / out of memory, with the value's hash), every reference count increment and decrement of a terminal, the terminal collection (begin, removed ids, end) and every iterator item for whole MTBDD<I64> / MTBDD<F64> histories; the log is replayed from the new manager on by the extracted log-level model coq/Mgr/ConcTermLog.v (projection of the interleaving model coq/Mgr/ConcTerm.v, proved to accept the log of every behaviour of that model)"
 META["level_text"] += " Terminal manager replay (package C07t; theorems C07_term_log_* in coq/Props/C07.v, stage checks/termcommon.py): the replay ystep accepts the log of every action and every schedule of the interleaving model from a new manager of any capacity (log_sim, log_trace_sim, log_reachable_accepted), keeps ids and values pairwise distinct and the free chain disjoint (log_inv, log_run_inv), accepts a removal only for a stored terminal without counted edge in the sweep phase, a `found` only for the id that holds the value, a new id only if it heads the free chain, is not in use and the value is not stored, a decrement or an unannounced increment only with a counted edge (log_free, log_found, log_new, log_retain, log_release); a replayed table that passes the snapshot comparison forms, with the handles and child edges of the snapshot as tokens, a state satisfying the full invariant XInv (log_match_lift). Tie: 46 (thorough 340) sequential histories over I64 / F64 terminals incl. managers with 3..12 terminal slots: every logged event must be accepted by the extracted ystep (a removal of a terminal with a counted edge, a `found` of a collected slot, a new id that is in use, a hit on an entry naming a collected terminal, an iterator item or hit without its increment = violation), and after EVERY operation the replayed table must equal the lifted snapshot: same ids, replayed count (logged increments - decrements) = handles + child edges of stored nodes, slot |-> value consistent with slot |-> hash."
 META["level_note"] += " Terminal manager replay (package C07t): the replayed reference counts are the logged fetch_add / fetch_sub events (the counters themselves are not readable through the public API); terminal values are represented by the FxHasher hash the hook reports; the hooks are trusted."
+
+# package GCTHREAD (collector protocol of the index-based manager): coq/Mgr/GcThread*.v, theorems C05_gcthread_* / C07_gcthread_*, stage checks/gcthreadcommon.py
+META["level_text"] += " Collector protocol (package GCTHREAD, C05_gcthread_*, 22 theorems over coq/Mgr/GcThread.v = interleaving model of node_count vs gc_hwm / gc_lwm, gc_state, the gc_signal condition variable, gc_ongoing, the manager lock and the handle drops; mutual exclusion under C07_gcthread_*): under every schedule gc_state becomes Triggered iff a get_slot_from_shared finds Init and the count at or above gc_hwm (trigger_iff); the sleeping collector is woken exactly by that allocation or by the Quit of the handle that sees strong_count == 2, a notification while it is not inside wait is lost (wake_iff, notify_lost); from its wake-up test to the end of its epilogue the collector sees Triggered (coll_active_triggered); gc_state returns to Init iff the collector's epilogue finds the count below gc_lwm, and every schedule from Triggered to Init contains such an epilogue (reset_iff, resume_needs_epilogue); Triggered with a collector that is not on its way to an epilogue is absorbing under every action of every thread: the state stays Triggered and the collector never starts a collection again (stuck_forever, triggered_dichotomy, stuck_entry: the ways in are a lost notification, an epilogue at or above gc_lwm, quit); the Quit is stored iff a drop sees strong_count == 2, it is seen iff the collector is inside wait or notified at that moment, otherwise missed for ever (quit_sent_iff, quit_outcome, quit_seen_forever, quit_seen_exits, quit_missed_forever, asleep_forever); computed schedules next to a control run: automatic collection off after a sweep that ends at or above gc_lwm although the count falls to 0 and reaches gc_hwm again (auto_gc_resumes_refuted), lost wake-up before the first wait / between epilogue and wait (trigger_wakes_refuted), missed quit (quit_seen_refuted), two concurrent drops both reading strong_count == 3 (drop_quit_refuted); the two rules on gc_state are those of the replayed allocator model (trigger_rule_alloc, reset_rule_alloc). These are OBSERVATIONS outside the property texts (nothing demands that automatic collection resumes or that the collector thread ends): /repo is not changed; the stage checks/gcthreadcommon.py reproduces them on the real code (gc_count, thread names) and records the numbers in the evidence, never a verdict."
+META["level_note"] += " Package GCTHREAD: the model is proof-only except for its two gc_state rules (shared with the replayed ALLOC model); lock(); wait() of the collector and Quit-store + notify_one are single steps, the RwLock has no fairness, node_count changes are arbitrary integers (their relation to the slots is ALLOC), sweeps remove an unspecified set of nodes."
 
 ALLOWED_AXIOMS = ()
 
@@ -165,11 +170,14 @@ def run(ctx):
     slab_cov = arcslabcommon.run_stage(ctx)
     # package C07t: the terminal manager replay stage (hooks build, terminal events replayed on the extracted model coq/Mgr/ConcTermLog.v)
     term_cov = termcommon.run_stage(ctx)
+    # package GCTHREAD: observations on the collector protocol on the real code (never a verdict)
+    gct_cov = gcthreadcommon.run_stage(ctx)
     ddcommon.run_dd(
         ctx, ["C05"], cases, proofs=False,
         extra_cov={"gc_model_cases_ok": ok_s, "gc_model_cases_bad": len(bad_s), "alloc_stage": alloc_cov, "alloc_stage_rule": alloccommon.RULE,
                    "arcslab_stage": slab_cov, "arcslab_stage_rule": arcslabcommon.RULE,
-                   "term_stage": term_cov, "term_stage_rule": termcommon.RULE},
+                   "term_stage": term_cov, "term_stage_rule": termcommon.RULE,
+                   "gcthread_stage": gct_cov, "gcthread_stage_rule": gcthreadcommon.RULE},
         rule="MTBDD terminals: histories over I64 and F64 terminals with a snapshot after every op (model invariant on every lifted snapshot; every gc() and constant() replayed on the extracted terminal-manager model); managers with 3..12 terminal slots framed by the terminal capacity probe, constants re-created right after collections, gc before every op in a fifth of them; large managers (2-3 allocation chunks; thorough 2-5): sessions that create up to 1200 nodes, drop them and collect inside one manager session, then a capacity probe that fills the store completely; MTBDD histories (arithmetic, ite, restrict, constants; gc; final drop all + gc: no inner node and no terminal left, after every gc no unreferenced terminal survives); per kind (bdd, bcdd, zbdd): random histories (apply, quantification, substitution, clone, drop, drop on another thread, gc, add_vars, set_var_order) with a snapshot and the reference-count audit after every op and a final 'drop all; gc; snapshot'; small-capacity managers (120..500 nodes, automatic collection at the high-water mark, failing operations) framed by the capacity probe; tdd: 36 (thorough 300) random histories (constants, variables, not, 8 connectives, ite, cofactors, clone, drop, drop on another thread, gc, add_vars, set_var_order; 1 or 4 workers) with the generic audit AND the ternary audit td_rc_b after every op, no unreferenced node after gc, final 'drop all; gc; snapshot' = empty store; 24 (thorough 200) stores of 6..200 nodes framed by the ternary capacity probe T3FILL (single-node functions, all alive, until out-of-memory: every slot in use; per variable the 12 nodes with terminal children that a connective makes of x and the constant u, then nodes x0 op g at level 0), failing operations in between. non-trivial = case with >= 3 ops",
         allowed_axioms=ALLOWED_AXIOMS)
 
